@@ -37,7 +37,7 @@ def run(chk):
     if gi is None:
         chk.broken_obligation("translator/table-extractor", err)
     chk.prove(["Props/Properties_C14.v"])
-    n = 250 if chk.tier == "quick" else 15000
+    n = 1200 if chk.tier == "quick" else 40000
     cases = [sc.gen_restart(chk.rng, i) for i in range(n)]
     sc.run_sim(chk, cases, oracle, "sim-C14")
     return chk.finish(**FINISH)
